@@ -12,6 +12,11 @@ xh : ``_fetch_and_resolve`` (real bytecode, together with the real ``_dispatch_l
          is that data batch, its own metadata survives and the payload's log messages are delivered (each once);
          otherwise an exception escapes — ANY exception: which check fires first, its class and wording are not fixed.
      (b) nothing of a rejected payload reaches application code: when the call raises, ``on_log`` was not invoked.
+     (c) upload side (section at the end of the file): ``maybe_externalize_batch`` / ``maybe_externalize_collector`` /
+         ``_traced_upload`` (real bytecode) over size-abstract payloads — serialised size L and compressed size C are
+         independent symbolic ints (any compression ratio), compression none | zstd | gzip, any threshold: whenever a
+         pointer is returned, the stored object decoded the way its Content-Encoding says is the serialisation of
+         exactly the batches inline delivery writes, and the pointer's digest is that of the decoded bytes.
 """
 
 from __future__ import annotations
@@ -31,9 +36,12 @@ from vgi_rpc.rpc import _wire as wire
 PROPERTY = "C30"
 ENCODED = [ext._fetch_and_resolve, wire._dispatch_log_or_error]
 _NB = pick(2, 3)
-BOUNDS = "payloads of 0..%d batches, every combination of the 6 per-batch flags and of the schema relation (names / types / nullability equal or not), expected digest absent / equal to / different from the payload's (ideal hash)" % _NB
+BOUNDS = ("payloads of 0..%d batches, every combination of the 6 per-batch flags and of the schema relation (names / types / nullability equal or not), expected digest absent / equal to / different from the payload's (ideal hash); upload side: one batch or a collector of 0..2 logs + 0..1 data batch, "
+          "storage present/absent, any threshold and buffer size, compression none/zstd/gzip, serialised size L and compressed size C independent unbounded ints") % _NB
 OUTSIDE = (
-    "transparency of offload (maybe_externalize_* -> storage -> fetch -> identical batches: Arrow, storage and aiohttp); the HTTP fetch itself "
+    "byte-level transparency of offload (Arrow serialisation, the codecs, storage and aiohttp: the upload side is decided over size-abstract payloads, "
+    "'stored object decodes as labelled to the batches inline delivery writes'; real bytes only in replays); the client-side request upload "
+    "(_externalize_via_upload_url: no compression, httpx); the HTTP fetch itself "
     "(C31); SHA-256 (ideal hash); the retry wrapper resolve_external_location (tenacity is not installed here); Arrow's schema equality; "
     "which integrity check rejects a payload that fails several, the exception class / text, the provenance keys attached to an accepted batch, "
     "how often the object is fetched, whether a payload with a wrong digest is parsed before it is refused (only: nothing of it is handed out)"
@@ -43,6 +51,9 @@ ASSUMPTIONS = [
     "hashlib.sha256(blob).hexdigest() := a symbolic digest string attached to the blob (ideal hash)",
     "ipc.open_stream/ValidatedReader := reader over the symbolic batch sequence attached to the blob; StopIteration at the end",
     "time.monotonic := integer clock; pa.KeyValueMetadata := dict; merge_metadata := dict merge",
+    "upload side: BytesIO/new_ipc_stream := recorder of the written (batch, metadata) sequence, getvalue() an opaque stream of symbolic size L; _codec_compress := opaque "
+    "object of symbolic size C remembering codec and input; storage.upload := recorder; reader's contract := Content-Encoding names the transform to undo "
+    "(none/identity: the bytes are the stream), the pointer's sha256 is checked against the decoded bytes (what (a) and C31 decide for the fetch side)",
 ]
 
 _URL = "https://storage.invalid/blob/1?sig=s3cr3t"
@@ -552,3 +563,362 @@ def nothing_of_a_rejected_payload_reaches_on_log(n: int, has_expected: bool, dig
         # carved out exactly: the digest (when expected) was right, i.e. the bytes are the ones the pointer named
         return not (has_expected and not digest_equal)
     return len(logs) == 0
+
+
+# ---------------------------------------------------------------------------
+# (c) upload side — what is stored is what its label says
+# ---------------------------------------------------------------------------
+#
+# "identical to inline delivery" needs both halves: (a)/(b) decide the fetch side, this decides the
+# upload side of the same contract.  Real bytecode of maybe_externalize_batch (unary results, stream
+# headers, bidi inputs), maybe_externalize_collector (stream batches) and _traced_upload over
+# size-abstract payloads: the serialised IPC stream is an opaque object of symbolic size L remembering
+# which batches (with which metadata, in which order) it holds; compress(codec, x) is an opaque object
+# of symbolic size C (ANY size: well or badly compressible) remembering codec and x.  The reader's
+# side of the contract (C30 (a), C31): the object's Content-Encoding names the transform to undo, the
+# pointer's sha256 is that of the decoded bytes.  So, whenever a pointer is returned: the object it
+# names, decoded as labelled, is the serialisation of exactly the batches inline delivery would have
+# written, and the pointer's digest (if any) is the digest of those decoded bytes.
+
+_UH: dict = {}
+_U_URL = "https://storage.invalid/up/"
+
+
+class _URaw:
+    """The IPC stream serialising `items` = [(batch, custom_metadata), ...] under `schema`: opaque, L bytes."""
+
+    def __init__(self, items, schema, size):  # type: ignore[no-untyped-def]
+        self.items, self.schema, self.size = items, schema, size
+
+    def __len__(self) -> int:
+        return self.size
+
+    def __getattr__(self, name: str):  # type: ignore[no-untyped-def]
+        raise _u_unmodelled("serialised stream", name)
+
+
+class _UComp:
+    """compress(codec, raw): opaque, C bytes."""
+
+    def __init__(self, codec, raw, size):  # type: ignore[no-untyped-def]
+        self.codec, self.raw, self.size = codec, raw, size
+
+    def __len__(self) -> int:
+        return self.size
+
+    def __getattr__(self, name: str):  # type: ignore[no-untyped-def]
+        raise _u_unmodelled("compressed stream", name)
+
+
+def _u_unmodelled(what: str, name: str) -> Exception:
+    if name.startswith("__") and name.endswith("__"):
+        return AttributeError(name)  # copy / pickle protocol probes
+    return HarnessModelError(f"{what}: .{name} is not modelled")
+
+
+class _UBuf:
+    """BytesIO() an IPC writer writes into."""
+
+    def __init__(self, *a):  # type: ignore[no-untyped-def]
+        if a:
+            raise HarnessModelError("upload model: BytesIO(initial bytes)")
+        self.writer = None
+
+    def getvalue(self):  # type: ignore[no-untyped-def]
+        if self.writer is None or not self.writer.closed:
+            raise HarnessModelError("upload model: buffer read before its IPC stream was closed")
+        return _URaw(list(self.writer.items), self.writer.schema, _UH["L"])
+
+    def __getattr__(self, name: str):  # type: ignore[no-untyped-def]
+        raise _u_unmodelled("BytesIO", name)
+
+
+class _UWriter:
+    def __init__(self, buf, schema):  # type: ignore[no-untyped-def]
+        if not isinstance(buf, _UBuf) or buf.writer is not None:
+            raise HarnessModelError("upload model: IPC stream opened on a foreign / reused sink")
+        self.schema, self.items, self.closed = schema, [], False
+        buf.writer = self
+
+    def write_batch(self, batch, custom_metadata=None):  # type: ignore[no-untyped-def]
+        if self.closed:
+            raise HarnessModelError("upload model: write after close")
+        self.items.append((batch, custom_metadata))
+
+    def close(self) -> None:
+        self.closed = True
+
+    def __enter__(self):  # type: ignore[no-untyped-def]
+        return self
+
+    def __exit__(self, *exc) -> None:  # type: ignore[no-untyped-def]
+        self.close()
+
+    def __getattr__(self, name: str):  # type: ignore[no-untyped-def]
+        raise _u_unmodelled("IPC writer", name)
+
+
+class _UHashlib:
+    """Ideal SHA-256: the digest of the raw stream, of each compressed form, and of anything else are all different."""
+
+    class _D:
+        def __init__(self, d):  # type: ignore[no-untyped-def]
+            self.d = d
+
+        def hexdigest(self):  # type: ignore[no-untyped-def]
+            return self.d
+
+    def sha256(self, data):  # type: ignore[no-untyped-def]
+        if isinstance(data, _URaw):
+            return self._D("digest-of-raw")
+        if isinstance(data, _UComp):
+            return self._D("digest-of-" + data.codec.value)
+        raise HarnessModelError("sha256 over foreign bytes")
+
+    def __getattr__(self, name: str):  # type: ignore[no-untyped-def]
+        raise _u_unmodelled("hashlib", name)
+
+
+def _u_compress(codec, data, *a, **k):  # type: ignore[no-untyped-def]
+    if not isinstance(data, _URaw):
+        raise HarnessModelError("upload model: compress() of something that is not the serialised stream")
+    return _UComp(codec, data, _UH["C"])
+
+
+class _UStorage:
+    def __init__(self) -> None:
+        self.objects: list = []  # (url, data, content_encoding)
+
+    def upload(self, data, schema, *a, content_encoding=None, **k):  # type: ignore[no-untyped-def]
+        url = _U_URL + str(len(self.objects))
+        self.objects.append((url, data, content_encoding))
+        return url
+
+    def __getattr__(self, name: str):  # type: ignore[no-untyped-def]
+        raise _u_unmodelled("storage", name)
+
+
+class _UPtr:
+    """The pointer batch make_external_location_batch builds (zero rows, vgi_rpc.location [+ sha256])."""
+
+    def __init__(self, schema, url, sha256):  # type: ignore[no-untyped-def]
+        self.schema, self.url, self.sha256 = schema, url, sha256
+        self.num_rows = 0
+
+
+def _u_make_pointer(schema, url, sha256=None, *a, **k):  # type: ignore[no-untyped-def]
+    p = _UPtr(schema, url, sha256)
+    return p, ("pointer-metadata", p)
+
+
+_u_traced_upload = reglobalize(ext._traced_upload, _HAS_OTEL=False, _count_externalized=lambda n: None)
+_U_ENV = dict(BytesIO=_UBuf, new_ipc_stream=lambda buf, schema, *a, **k: _UWriter(buf, schema), hashlib=_UHashlib(), _codec_compress=_u_compress,
+              _traced_upload=_u_traced_upload, make_external_location_batch=_u_make_pointer)
+_u_ext_batch = reglobalize(ext.maybe_externalize_batch, **_U_ENV)
+_u_ext_collector = reglobalize(ext.maybe_externalize_collector, **_U_ENV)
+ENCODED += [ext.maybe_externalize_batch, ext.maybe_externalize_collector, ext._traced_upload]
+
+_U_STUBS = ["BytesIO / new_ipc_stream := recorder of the written (batch, metadata) sequence; getvalue() := opaque stream of symbolic size L",
+            "_codec_compress := opaque object of symbolic size C (any size) remembering codec and input; hashlib.sha256 := ideal hash",
+            "storage.upload := recorder of (bytes, content_encoding), returns a fresh URL; make_external_location_batch := record of (schema, url, sha256)",
+            "_HAS_OTEL := False; _count_externalized := no-op (access-log metric)"]
+
+
+class _USchema:
+    def __getattr__(self, name: str):  # type: ignore[no-untyped-def]
+        raise _u_unmodelled("schema", name)
+
+
+class _UBatch:
+    def __init__(self, schema, rows, tbs):  # type: ignore[no-untyped-def]
+        self.schema, self.num_rows, self._tbs = schema, rows, tbs
+
+    def get_total_buffer_size(self):  # type: ignore[no-untyped-def]
+        return self._tbs
+
+    @property
+    def nbytes(self):  # type: ignore[no-untyped-def]
+        return self._tbs
+
+    def __getattr__(self, name: str):  # type: ignore[no-untyped-def]
+        raise _u_unmodelled("batch", name)
+
+
+class _UAB:
+    def __init__(self, batch, custom_metadata):  # type: ignore[no-untyped-def]
+        self.batch, self.custom_metadata = batch, custom_metadata
+
+
+class _UOut:
+    """OutputCollector as maybe_externalize_collector sees it: ordered batches, at most one of them the data batch."""
+
+    def __init__(self, schema, batches, data_idx):  # type: ignore[no-untyped-def]
+        self.output_schema, self.batches, self._data_idx = schema, batches, data_idx
+
+    @property
+    def data_batch(self):  # type: ignore[no-untyped-def]
+        if self._data_idx is None:
+            raise RuntimeError("No data batch was emitted")
+        return self.batches[self._data_idx]
+
+    def __getattr__(self, name: str):  # type: ignore[no-untyped-def]
+        raise _u_unmodelled("collector", name)
+
+
+class _UCompression:
+    def __init__(self, algorithm: str) -> None:
+        self.algorithm, self.level = algorithm, 3
+
+
+class _UCfg:
+    def __init__(self, storage, threshold, compression):  # type: ignore[no-untyped-def]
+        self.storage, self.externalize_threshold_bytes, self.compression = storage, threshold, compression
+
+    def __getattr__(self, name: str):  # type: ignore[no-untyped-def]
+        raise _u_unmodelled("ExternalLocationConfig", name)
+
+
+def _u_compression(comp: int):  # type: ignore[no-untyped-def]
+    return None if comp == 0 else _UCompression("zstd" if comp == 1 else "gzip")
+
+
+def _u_object_decodes_to(storage: _UStorage, ptr: _UPtr, want_items: list, schema) -> bool:  # type: ignore[no-untyped-def]
+    """The reader's half of the contract applied to what the uploader stored under the pointer's URL."""
+    hit = [o for o in storage.objects if o[0] == ptr.url]
+    if len(hit) != 1:
+        return False
+    _url, data, enc = hit[0]
+    if enc is None or enc == "" or enc == "identity":
+        raw = data if isinstance(data, _URaw) else None  # no transform named: the bytes ARE the stream
+    else:
+        # a codec is named: the reader undoes exactly that codec
+        raw = data.raw if isinstance(data, _UComp) and data.codec.value == enc else None
+    if raw is None or raw.schema is not schema or len(raw.items) != len(want_items):
+        return False
+    for got, want in zip(raw.items, want_items):
+        if got[0] is not want[0] or got[1] is not want[1]:
+            return False
+    # the pointer's digest (when it carries one) is checked by the reader against the DECODED bytes
+    return ptr.sha256 is None or ptr.sha256 == "digest-of-raw"
+
+
+@cond(q=60, t=200, stubs=_U_STUBS, encoded=[ext.maybe_externalize_batch, ext._traced_upload],
+      bound="one batch (rows >= 0, any buffer size) with or without metadata; storage configured or not; any threshold; compression none | zstd | gzip; "
+            "serialised size L >= 1 and compressed size C >= 1 independent unbounded ints (any compression ratio, incl. C >= L)",
+      replay=lambda a: _replay_upload(a, collector=False), signature=lambda a, c: "C30:externalize-batch:stored-object-does-not-decode-to-the-batch")
+def externalized_batch_is_stored_as_labelled(has_storage: bool, comp: int, L: int, C: int, threshold: int, tbs: int, rows: int, has_cm: bool) -> bool:
+    """
+    pre: 0 <= comp <= 2 and L >= 1 and C >= 1 and tbs >= 0 and rows >= 0
+    post: _
+    """
+    _UH.clear()
+    _UH.update(L=L, C=C)
+    storage = _UStorage()
+    schema = _USchema()
+    batch = _UBatch(schema, rows, tbs)
+    cm = ("metadata",) if has_cm else None
+    out_b, out_cm, _n = _u_ext_batch(batch, cm, _UCfg(storage if has_storage else None, threshold, _u_compression(comp)))
+    if out_b is batch:
+        return out_cm is cm  # delivered inline, as it was
+    if not isinstance(out_b, _UPtr) or out_cm != ("pointer-metadata", out_b):
+        return False
+    return _u_object_decodes_to(storage, out_b, [(batch, cm)], schema)
+
+
+@cond(q=60, t=200, stubs=_U_STUBS, encoded=[ext.maybe_externalize_collector, ext._traced_upload],
+      bound="collector with 0..2 log batches and (or not) one data batch of any buffer size; storage configured or not; any threshold; compression none | zstd | gzip; "
+            "serialised size L >= 1 and compressed size C >= 1 independent unbounded ints",
+      replay=lambda a: _replay_upload(a, collector=True), signature=lambda a, c: "C30:externalize-collector:stored-object-does-not-decode-to-the-batches")
+def externalized_collector_is_stored_as_labelled(has_storage: bool, comp: int, L: int, C: int, threshold: int, tbs: int, n_logs: int, has_data: bool) -> bool:
+    """
+    pre: 0 <= comp <= 2 and L >= 1 and C >= 1 and tbs >= 0 and 0 <= n_logs <= 2
+    post: _
+    """
+    _UH.clear()
+    _UH.update(L=L, C=C)
+    storage = _UStorage()
+    schema = _USchema()
+    abs_ = [_UAB(_UBatch(schema, 0, 0), ("log", i)) for i in range(n_logs)]
+    if has_data:
+        abs_.append(_UAB(_UBatch(schema, 1, tbs), None))
+    out = _UOut(schema, abs_, len(abs_) - 1 if has_data else None)
+    want = [(ab.batch, ab.custom_metadata) for ab in abs_]
+    res, _n = _u_ext_collector(out, _UCfg(storage if has_storage else None, threshold, _u_compression(comp)))
+    if len(res) == 1 and isinstance(res[0][0], _UPtr):
+        return res[0][1] == ("pointer-metadata", res[0][0]) and _u_object_decodes_to(storage, res[0][0], want, schema)
+    # delivered inline: the same batches with the same metadata in the same order
+    if len(res) != len(want):
+        return False
+    for got, w in zip(res, want):
+        if got[0] is not w[0] or got[1] is not w[1]:
+            return False
+    return True
+
+
+def _replay_upload(a: dict, collector: bool) -> str | None:
+    """Un-stubbed round trip: the real maybe_externalize_* (real pyarrow, real codec) uploads into the repository's fake
+    object store over loopback HTTP, the real _fetch_and_resolve fetches what the returned pointer names; the result must
+    be what inline delivery hands over.  The payload's compressibility follows the counterexample: C*10 >= L*9 -> a
+    high-entropy column (random bytes), else an all-zero one."""
+    import random as _random
+
+    from vgi_rpc.conformance.fake_storage import FakeStorageBackend, serve_in_thread
+    from vgi_rpc.external import ClientExternalConfig, Compression, ExternalLocationConfig
+    from vgi_rpc.log import Level as _Level
+    from vgi_rpc.metadata import LOCATION_SHA256_KEY
+    from vgi_rpc.rpc._types import OutputCollector
+
+    if not a.get("has_storage", True):
+        return None
+    n = 24_000
+    hard = a["C"] * 10 >= a["L"] * 9
+    blob = _random.Random(11).randbytes(n) if hard else bytes(n)
+    schema = pa.schema([pa.field("v", pa.binary())])
+    rows = 1 if collector else max(0, min(int(a.get("rows", 1)), 3))
+    batch = pa.RecordBatch.from_pydict({"v": [blob] * rows}, schema=schema)
+    over = a["tbs"] >= a["threshold"]
+    threshold = 1_000 if over else 10**9
+    comp = None if a["comp"] == 0 else Compression(algorithm="zstd" if a["comp"] == 1 else "gzip")
+    what = f"compression={'none' if comp is None else comp.algorithm}, {'incompressible' if hard else 'compressible'} payload of {batch.get_total_buffer_size()} bytes, threshold {threshold}"
+    base, shutdown = serve_in_thread()
+    client_cfg = ClientExternalConfig(url_validator=None)
+    try:
+        cfg = ExternalLocationConfig(storage=FakeStorageBackend(base), externalize_threshold_bytes=threshold, compression=comp, url_validator=None)
+        n_logs = 0
+        if collector:
+            if not a.get("has_data", True):
+                return None
+            n_logs = a.get("n_logs", 0)
+            out = OutputCollector(schema)
+            for i in range(n_logs):
+                out.client_log(_Level.INFO, "note %d" % i)
+            out.emit(batch)
+            res, _n = ext.maybe_externalize_collector(out, cfg)
+            if len(res) != 1 or not ext.is_external_location_batch(res[0][0], res[0][1]):
+                return None  # delivered inline
+            ptr_cm = res[0][1]
+        else:
+            cm = pa.KeyValueMetadata({b"user.key": b"u"}) if a.get("has_cm") else None
+            out_b, ptr_cm, _n = ext.maybe_externalize_batch(batch, cm, cfg)
+            if not ext.is_external_location_batch(out_b, ptr_cm):
+                return None  # delivered inline
+        url = ptr_cm.get(LOCATION_KEY).decode()
+        sha = ptr_cm.get(LOCATION_SHA256_KEY)
+        logs: list = []
+        try:
+            got, got_cm = ext._fetch_and_resolve(schema, url, client_cfg, logs.append, expected_sha256=sha.decode() if sha is not None else None)
+        except Exception as e:  # noqa: BLE001
+            return (f"{'maybe_externalize_collector' if collector else 'maybe_externalize_batch'} ({what}) returned a pointer, but fetching what it names fails with "
+                    f"{type(e).__name__}: {str(e)[:160]!r} — inline delivery hands the batch over")
+        if not got.equals(batch):
+            return f"externalised delivery ({what}) resolves to a different batch than inline delivery"
+        if len(logs) != n_logs:
+            return f"externalised delivery ({what}) delivers {len(logs)} log message(s), inline delivery {n_logs}"
+        if not collector and a.get("has_cm") and (got_cm is None or got_cm.get(b"user.key") != b"u"):
+            return f"externalised delivery ({what}) lost the batch's own metadata"
+        return None
+    finally:
+        try:
+            client_cfg.fetch_config.close()
+        finally:
+            shutdown()
